@@ -17,6 +17,12 @@ Definition copyTo_all (src dst : span) : option bytes := copyTo src dst (sp_bits
 Definition at_offset (s : span) (bits : N) : span := mkspan (sp_data s) (sp_size s) (w64 (sp_off s + bits)).
 (* offset_bytes() *)
 Definition offset_bytes (s : span) : N := sp_off s / 8.
+(* set_offset(bits), offset(), offset_misalignment(n), offset_alings_to(n), offset_alings_to_byte() *)
+Definition set_offset (s : span) (bits : N) : span := mkspan (sp_data s) (sp_size s) bits.
+Definition offset_misalignment (s : span) (alignment_bits : N) : option N :=
+  if alignment_bits =? 0 then None else Some (sp_off s mod alignment_bits).             (* % 0 is undefined *)
+Definition offset_aligns_to (s : span) (alignment_bits : N) : option bool :=
+  match offset_misalignment s alignment_bits with Some m => Some (m =? 0) | None => None end.
 
 (* ---- Python: arrays of standard-bit-length primitives ---- *)
 (* x.view(Byte) of an array whose elements are w bytes wide, on a little-endian host *)
